@@ -11,6 +11,7 @@
 -/
 import MajoranaVerif.Props.C01
 import MajoranaVerif.Props.C12
+import MajoranaVerif.Proofs.Mvp5Cycles
 open GoInt Model Model.Seq Proofs.Seq Proofs.Refine
 
 namespace Props.C07
@@ -136,5 +137,121 @@ def exErrApp : App :=
 /-- Non-vacuity: the model of MVP-3 reports the error value. -/
 example : (Model.Mvp3.runMvp3 exErrApp ⟨{ Memory := List.replicate 8 0#8 }, 0#32⟩ 10).halt = some .err := by
   decide +kernel
+
+end Props.C07
+
+/-! ### MVP-4 and MVP-5 (work package CYC45): termination within an explicit bound
+
+On the cycle-accurate models `Model.Mvp4` / `Model.Mvp5` (tied to the Go machines cycle-exactly).  The progress measure of
+the totality proofs (`Proofs.Mvp4.phi`, `Proofs.Mvp5.phi5`: every tick that executes no instruction decreases it) is at
+most `Proofs.Mvp4.phiBound = 4·MemoryAccess + 2003` in every state right after an executed instruction
+(`phi_fresh_le`: a store in progress in the write unit and two more on the write bus — 3·MemoryAccess + 3 —, the drain
+before a flush or an empty front end — the constants 2000 / 500 of the measure —, a line fetch of the instruction
+cache — MemoryAccess + 8).  Hence at most `tickFactor = 4·MemoryAccess + 2004` ticks per executed instruction
+(`≤ 11 · MemoryAccess`: `tickFactor_le`); the returned cycle count is at most the number of ticks (the drain loop
+after `ret` counts none) plus the final `mmu.flush()` of at most 16 lines. -/
+
+namespace Props.C07
+
+/-- ticks per executed instruction: `4 · MemoryAccess + 2004` -/
+def tickFactor : Nat := 4 * Gen.Latency.MemoryAccess.toNat + 2004
+
+theorem tickFactor_eq : tickFactor = Proofs.Mvp4.phiBound + 1 := rfl
+
+/-- the factor is a fixed multiple of the slowest memory latency -/
+theorem tickFactor_le : tickFactor ≤ 11 * Gen.Latency.MemoryAccess.toNat := by decide
+
+/-- **C07 for MVP-4, quantitative**: if the specification run of a parsed program is well-formed and ends after `n`
+executed instructions, then with EVERY tick budget of at least `tickFactor · (n + 1)` the MVP-4 run ends — the way the
+specification run ends, with an error value for a defined error, never with a Go panic, with the specification's final
+registers and memory — after at most `tickFactor · (n + 1)` ticks, and the returned cycle count lies between `n` and
+`tickFactor · (n + 1) + 16 · MemoryAccess`. -/
+theorem mvp4_terminates_bounded (app : App) (hw : WfApp app) (ctx : Model.Context) (m : Spec.Machine)
+    (hR : Rel ctx m) (hsz : m.mem.size + 64 ≤ 2 ^ 31) (hpw : ∀ r, GoMap.get1 ctx.PendingWriteRegisters r = 0)
+    (fuel : Nat) (hwf : ∀ why, (Spec.run (specProg app) m fuel).stop ≠ .notWf why) (ticks : Nat)
+    (hT : tickFactor * ((Spec.run (specProg app) m fuel).steps + 1) ≤ ticks) :
+    ∃ hk, (Model.Mvp4.run app ctx ticks).halt = some hk ∧ (∀ w, hk ≠ .panic w) ∧
+      Props.C01.Agree4 (Spec.run (specProg app) m fuel) hk (Model.Mvp4.run app ctx ticks).final.ctx ∧
+      (Model.Mvp4.run app ctx ticks).ticks ≤ tickFactor * ((Spec.run (specProg app) m fuel).steps + 1) ∧
+      (Model.Mvp4.run app ctx ticks).final.cycles ≤
+        (tickFactor * ((Spec.run (specProg app) m fuel).steps + 1) : Nat) + 16 * Gen.Latency.MemoryAccess ∧
+      ((Spec.run (specProg app) m fuel).steps : Int) ≤ (Model.Mvp4.run app ctx ticks).final.cycles := by
+  rw [tickFactor_eq] at hT ⊢
+  obtain ⟨hk, h1, h2, h3, h4, h5⟩ := Proofs.Mvp4.mvp4_terminates_in app hw ctx m hR hsz hpw fuel hwf ticks hT
+  exact ⟨hk, h1, h2, Props.C01.mvp4_correct app hw ctx m hR hsz hpw fuel ticks hk h1 h2, h3, h4, h5⟩
+
+/-- **C07 for MVP-5, quantitative** (same statement, same constants) -/
+theorem mvp5_terminates_bounded (app : App) (hw : WfApp app) (ctx : Model.Context) (m : Spec.Machine)
+    (hR : Rel ctx m) (hsz : m.mem.size + 64 ≤ 2 ^ 31) (hpw : ∀ r, GoMap.get1 ctx.PendingWriteRegisters r = 0)
+    (fuel : Nat) (hwf : ∀ why, (Spec.run (specProg app) m fuel).stop ≠ .notWf why) (ticks : Nat)
+    (hT : tickFactor * ((Spec.run (specProg app) m fuel).steps + 1) ≤ ticks) :
+    ∃ hk, (Model.Mvp5.run app ctx ticks).halt = some hk ∧ (∀ w, hk ≠ .panic w) ∧
+      Props.C01.Agree4 (Spec.run (specProg app) m fuel) hk (Model.Mvp5.run app ctx ticks).final.base.ctx ∧
+      (Model.Mvp5.run app ctx ticks).ticks ≤ tickFactor * ((Spec.run (specProg app) m fuel).steps + 1) ∧
+      (Model.Mvp5.run app ctx ticks).final.base.cycles ≤
+        (tickFactor * ((Spec.run (specProg app) m fuel).steps + 1) : Nat) + 16 * Gen.Latency.MemoryAccess ∧
+      ((Spec.run (specProg app) m fuel).steps : Int) ≤ (Model.Mvp5.run app ctx ticks).final.base.cycles := by
+  rw [tickFactor_eq] at hT ⊢
+  obtain ⟨hk, h1, h2, h3, h4, h5⟩ := Proofs.Mvp5.mvp5_terminates_in app hw ctx m hR hsz hpw fuel hwf ticks hT
+  exact ⟨hk, h1, h2, Props.C01.mvp5_correct app hw ctx m hR hsz hpw fuel ticks hk h1 h2, h3, h4, h5⟩
+
+/-- the tick budget the differential driver gives the models (`Driver/Run.lean`: `32 · MemoryAccess · (steps + 64)`) is
+always sufficient: the `m4=` / `m5=` fields can never read `fuel` on a well-formed case -/
+theorem driver_budget_suffices (n : Nat) :
+    tickFactor * (n + 1) ≤ 32 * Gen.Latency.MemoryAccess.toNat * (n + 64) := by
+  have h : tickFactor = 3240 := by decide
+  have h2 : Gen.Latency.MemoryAccess.toNat = 309 := by decide
+  rw [h, h2]; omega
+
+/-- the bounds for EVERY run that ends, whatever the tick budget: cycle count between `n` and
+`tickFactor · (n + 1) + 16 · MemoryAccess`, at most `tickFactor · (n + 1)` ticks -/
+theorem mvp4_cycles_bounded (app : App) (hw : WfApp app) (ctx : Model.Context) (m : Spec.Machine)
+    (hR : Rel ctx m) (hsz : m.mem.size + 64 ≤ 2 ^ 31) (hpw : ∀ r, GoMap.get1 ctx.PendingWriteRegisters r = 0)
+    (fuel : Nat) (hwf : ∀ why, (Spec.run (specProg app) m fuel).stop ≠ .notWf why) (ticks : Nat) (hk : Halt)
+    (hh : (Model.Mvp4.run app ctx ticks).halt = some hk) :
+    ((Spec.run (specProg app) m fuel).steps : Int) ≤ (Model.Mvp4.run app ctx ticks).final.cycles ∧
+    (Model.Mvp4.run app ctx ticks).final.cycles ≤
+      (tickFactor * ((Spec.run (specProg app) m fuel).steps + 1) : Nat) + 16 * Gen.Latency.MemoryAccess ∧
+    (Model.Mvp4.run app ctx ticks).ticks ≤ tickFactor * ((Spec.run (specProg app) m fuel).steps + 1) := by
+  rw [tickFactor_eq]
+  exact Proofs.Mvp4.mvp4_cycles_of_halt app hw ctx m hR hsz hpw fuel hwf ticks hk hh
+
+theorem mvp5_cycles_bounded (app : App) (hw : WfApp app) (ctx : Model.Context) (m : Spec.Machine)
+    (hR : Rel ctx m) (hsz : m.mem.size + 64 ≤ 2 ^ 31) (hpw : ∀ r, GoMap.get1 ctx.PendingWriteRegisters r = 0)
+    (fuel : Nat) (hwf : ∀ why, (Spec.run (specProg app) m fuel).stop ≠ .notWf why) (ticks : Nat) (hk : Halt)
+    (hh : (Model.Mvp5.run app ctx ticks).halt = some hk) :
+    ((Spec.run (specProg app) m fuel).steps : Int) ≤ (Model.Mvp5.run app ctx ticks).final.base.cycles ∧
+    (Model.Mvp5.run app ctx ticks).final.base.cycles ≤
+      (tickFactor * ((Spec.run (specProg app) m fuel).steps + 1) : Nat) + 16 * Gen.Latency.MemoryAccess ∧
+    (Model.Mvp5.run app ctx ticks).ticks ≤ tickFactor * ((Spec.run (specProg app) m fuel).steps + 1) := by
+  rw [tickFactor_eq]
+  exact Proofs.Mvp5.mvp5_cycles_of_halt app hw ctx m hR hsz hpw fuel hwf ticks hk hh
+
+/-- Non-vacuity of `mvp5_terminates_bounded` (and of `driver_budget_suffices`): all hypotheses hold together for the
+program `Props.C01.exApp5` (a jump executed twice, a call and a return), a 64-byte zero memory, the all-zero specification
+machine and the driver's budget; the specification run executes 12 instructions. -/
+example : ∃ hk,
+    (Model.Mvp5.run Props.C01.exApp5 { Memory := List.replicate 64 0#8 } (32 * Gen.Latency.MemoryAccess.toNat * (12 + 64))).halt = some hk ∧
+    (∀ w, hk ≠ .panic w) ∧
+    (Model.Mvp5.run Props.C01.exApp5 { Memory := List.replicate 64 0#8 } (32 * Gen.Latency.MemoryAccess.toNat * (12 + 64))).ticks ≤
+      tickFactor * (12 + 1) := by
+  have hs : (Spec.run (specProg Props.C01.exApp5) { regs := Array.replicate 32 0#32, mem := Array.replicate 64 0#8 } 30).steps = 12 ∧
+      (Spec.run (specProg Props.C01.exApp5) { regs := Array.replicate 32 0#32, mem := Array.replicate 64 0#8 } 30).stop = .ret := by
+    decide +kernel
+  obtain ⟨hk, h1, h2, _, h4, _⟩ := mvp5_terminates_bounded Props.C01.exApp5
+    { small := by decide, regs := by decide, nofwd := by decide } { Memory := List.replicate 64 0#8 }
+    { regs := Array.replicate 32 0#32, mem := Array.replicate 64 0#8 }
+    { rat := rfl, tx := rfl,
+      regs := by
+        intro r
+        simp only [GoMap.get1, GoMap.get, GoMap.find?, Spec.Machine.rf, List.lookup, Array.getD_eq_getD_getElem?]
+        by_cases h : r < 32 <;> simp [h] <;> rfl,
+      size := by simp, zero := by simp [Spec.Machine.rf], mem := by simp, memSmall := by simp }
+    (by decide) (fun r => by simp [GoMap.get1, GoMap.get, GoMap.find?]) 30
+    (by intro why hc; rw [hs.2] at hc; cases hc)
+    (32 * Gen.Latency.MemoryAccess.toNat * (12 + 64))
+    (by rw [hs.1]; exact driver_budget_suffices 12)
+  rw [hs.1] at h4
+  exact ⟨hk, h1, h2, h4⟩
 
 end Props.C07
